@@ -1,6 +1,8 @@
 """Runs catalogue signatures for C19 in a controlled interpreter.
   --mode ref : every signature is executed as the FIRST library call of a pristine process state
                (a child forked from a parent that imported the library but called nothing)
+  --mode cold: like ref, but the parent has NOT imported the library (only third-party packages): each child imports exactly
+               what its one call chain imports - results that depend on which modules happen to be loaded show here
   --mode seq : the given signatures are executed one after the other in this one interpreter
 The wall clock (date/datetime) is shifted by --offset-days and random/secrets are seeded with --seed
 BEFORE the library is imported."""
@@ -121,6 +123,7 @@ def read_cells(readers):
 def main():
     ap = argparse.ArgumentParser()
     ap.add_argument("--mode", required=True)
+    ap.add_argument("--builders", default="")
     ap.add_argument("--names", required=True)
     ap.add_argument("--out", required=True)
     ap.add_argument("--offset-days", type=int, default=0)
@@ -133,21 +136,34 @@ def main():
     from harness import core
     core.setup_repo_path()
     from harness import catalogue
+    if a.builders:
+        catalogue._BUILDER_NAMES[0] = json.load(open(a.builders))
     S = catalogue.build()
     names = json.load(open(a.names))
     sink = io.StringIO()
-    if a.mode == "ref":
-        # import (only import) the library so that children start fast; no library call is made here
+    if a.mode in ("ref", "cold"):
         import importlib
         import pkgutil
-        import okdmr.dmrlib as root
-        for m in pkgutil.walk_packages(root.__path__, "okdmr.dmrlib."):
-            if ".tools." in m.name or ".tests." in m.name:
-                continue
-            try:
-                importlib.import_module(m.name)
-            except Exception:  # noqa
-                pass
+        if a.mode == "ref":
+            # import (only import) the library so that children start fast; no library call is made here
+            import okdmr.dmrlib as root
+            for m in pkgutil.walk_packages(root.__path__, "okdmr.dmrlib."):
+                if ".tools." in m.name or ".tests." in m.name:
+                    continue
+                try:
+                    importlib.import_module(m.name)
+                except Exception:  # noqa
+                    pass
+        else:
+            # third-party packages only (they are what makes a cold start slow); nothing of okdmr
+            for third in ("numpy", "bitarray", "bitarray.util", "kaitaistruct", "scapy.layers.inet", "scapy.layers.l2", "scapy.utils"):
+                try:
+                    importlib.import_module(third)
+                except Exception:  # noqa
+                    pass
+            if any(k.startswith("okdmr") for k in sys.modules):
+                print("the cold parent has already imported the library")
+                sys.exit(3)
         out = {}
         for n in names:
             r, w = os.pipe()
